@@ -228,6 +228,8 @@ def write_evidence(prop: str, tier: str, seed: int, level: str, coverage: dict,
         "violations": violations,
         "repo_rev": repo_rev(),
     }
+    if CUT_SHORT[0]:
+        ev["coverage"] = dict(coverage, batch_cut_short_after_first_violation=True)
     path = os.path.join(EVIDENCE_DIR, prop + ".json")
     tmp = path + ".tmp.%d" % os.getpid()
     with open(tmp, "w") as f:
@@ -257,12 +259,16 @@ def _worker_entry(fn, chunk):
 
 
 def run_batch(fn, items, wall_cap_s: float, chunk: int = 1, jobs: int | None = None,
-              on_result=None, start: str = "fork"):
+              on_result=None, start: str = "fork", stop_when=None):
     """Run fn(item) for each item in forked worker processes.
 
     Results are delivered to on_result *in item order* (so aggregation does not
     depend on completion order).  A worker death or the wall cap is a
     HarnessError (exit 2), never exit 0 and never a VIOLATION.
+
+    stop_when(result) -> bool (only honoured with VERIF_STOP_EARLY=1, which selftest/sensitivity.py sets): stop handing
+    out work once a finished run satisfies it.  The runs that did finish are a subset of the full batch, so whatever they
+    report the full batch reports too; a batch that was cut short says so in its summary and never counts as evidence.
     """
     import concurrent.futures as cf
     import multiprocessing as mp
@@ -271,11 +277,15 @@ def run_batch(fn, items, wall_cap_s: float, chunk: int = 1, jobs: int | None = N
     chunks = [items[i:i + chunk] for i in range(0, len(items), chunk)]
     results = [None] * len(chunks)
     t0 = time.monotonic()
+    early = stop_when if os.environ.get("VERIF_STOP_EARLY") == "1" else None
+    pending = set()
     if jobs == 1:
         for ci, ch in enumerate(chunks):
             if time.monotonic() - t0 > wall_cap_s:
                 raise HarnessError("wall cap hit")
             results[ci] = _worker_entry(fn, ch)
+            if early and any(early(r) for r in results[ci]):
+                break
     else:
         # start="spawn": workers are fresh interpreters.  Needed when the workers fork a lot themselves:
         # processes forked from one ancestor share its anon_vma root lock in the kernel, and fork/COW
@@ -291,11 +301,16 @@ def run_batch(fn, items, wall_cap_s: float, chunk: int = 1, jobs: int | None = N
                     raise HarnessError(f"wall cap {wall_cap_s}s hit with {len(pending)} chunks pending")
                 done, pending = cf.wait(pending, timeout=min(left, 5.0),
                                         return_when=cf.FIRST_COMPLETED)
+                hit = False
                 for f in done:
                     try:
                         results[futs[f]] = f.result()
                     except cf.process.BrokenProcessPool as e:
                         raise HarnessError(f"worker died: {e}")
+                    if early and any(early(r) for r in results[futs[f]]):
+                        hit = True
+                if hit:
+                    break
         finally:
             procs = list((getattr(ex, "_processes", None) or {}).values())
             ex.shutdown(wait=False, cancel_futures=True)
@@ -306,12 +321,18 @@ def run_batch(fn, items, wall_cap_s: float, chunk: int = 1, jobs: int | None = N
                     except Exception:
                         pass
     flat = []
-    for r in results:
-        flat.extend(r)
-    if on_result:
-        for it, r in zip(items, flat):
-            on_result(it, r)
+    for ch, r in zip(chunks, results):
+        if r is None:
+            continue              # not run: the batch was cut short (VERIF_STOP_EARLY)
+        for it, x in zip(ch, r):
+            flat.append(x)
+            if on_result:
+                on_result(it, x)
+    CUT_SHORT[0] = any(r is None for r in results)
     return flat
+
+
+CUT_SHORT = [False]
 
 
 def isolated(fn, *args):
@@ -383,7 +404,7 @@ def opt_suffix() -> str:
     return ":python-O" if child_opt_level() else ""
 
 
-def in_child_interpreter(module: str, func: str, args, optimize: int = 1, timeout_s: float = 1500.0):
+def in_child_interpreter(module: str, func: str, args, optimize: int = 1, timeout_s: float = 3600.0):
     """module.func(*args) in a NEW interpreter started with -O (optimize=1) or -OO (2): `assert` statements and
     `if __debug__:` blocks of the code under test are compiled away there, as for any user who runs with PYTHONOPTIMIZE.
     The result comes back pickled in a scratch file that is removed at once (stdout stays free for what the code under test prints)."""
